@@ -73,12 +73,23 @@ func acyclic(n int, es [][2]int) bool {
 	return true
 }
 
+// c05creation selects how service i is created (0: constructors only; 1: a mix of constructor, value and type-only)
+var c05creation = 0
+
 func c05cfg(n int, es [][2]int, kinds []int, scopes []int) *Cfg {
 	names := c05names(n)
 	cfg := &Cfg{Meta: stdMeta()}
 	svcs := make([]Service, n)
 	for i := range svcs {
 		svcs[i] = Service{Name: names[i], Constructor: P(fmt.Sprintf("pk.New%d", i%4+1)), Scope: c05scopes[scopes[i]]}
+		if c05creation == 1 {
+			switch i % 3 {
+			case 1:
+				svcs[i].Constructor, svcs[i].Value = nil, P("&pk.Obj{}")
+			case 2:
+				svcs[i].Constructor, svcs[i].Type = nil, P("pk2.Val")
+			}
+		}
 	}
 	hasTag := func(s *Service, t string) bool {
 		for _, x := range s.Tags {
@@ -292,6 +303,57 @@ func init() {
 					}
 				}
 			}
+			// placeholders keep their declared scope: a shared service must not depend on a todo service declared contextual
+			for gi, es := range dags3 {
+				if len(es) == 0 || len(es) > 2 {
+					continue
+				}
+				kinds := make([]int, len(es))
+				scopeVecs(3, func(sc []int) {
+					for todoMask := 1; todoMask < 8; todoMask++ {
+						es, sc, todoMask := es, append([]int{}, sc...), todoMask
+						id := fmt.Sprintf("verdict/todo/g%d/scopes=%v/todo=%03b", gi, sc, todoMask)
+						w.Case(id, func(c *C) {
+							cfg := c05cfg(3, es, kinds, sc)
+							// a todo service has no dependencies of its own (its attributes are ignored): drop its outgoing edges
+							var live [][2]int
+							for _, e := range es {
+								if todoMask&(1<<uint(e[0])) == 0 {
+									live = append(live, e)
+								}
+							}
+							for i := range cfg.Services {
+								if todoMask&(1<<uint(i)) != 0 {
+									cfg.Services[i] = Service{Name: cfg.Services[i].Name, Todo: P(true), Scope: cfg.Services[i].Scope}
+								}
+							}
+							files := []File{{"c.yaml", cfg.YAML()}}
+							br := w.Build(files)
+							c.Distinct("all", id)
+							c.Count("evaluations_extra")
+							cl := closure(3, live)
+							want := false
+							for i := 0; i < 3; i++ {
+								for j := 0; j < 3; j++ {
+									if cl[i][j] && sc[i] == 1 && sc[j] == 2 && todoMask&(1<<uint(i)) == 0 {
+										want = true
+									}
+								}
+							}
+							if want {
+								c.Distinct("nontrivial", id)
+							}
+							if br.Panic != "" {
+								c.Violation("panic", "tool panicked ("+id+"):\n"+br.Panic, FilesMap(files), nil)
+								return
+							}
+							if want != (br.Exit != 0) {
+								c.Violation("scope-rule-with-todo", fmt.Sprintf("todo mask %03b, scopes %v: expected rejected=%v (a placeholder keeps its declared scope) (%s)\n%s", todoMask, sc, want, id, strings.Join(ErrorLines(br.Out), "\n")), FilesMap(files), nil)
+							}
+						})
+					}
+				})
+			}
 			// name collisions: tags and parameters named exactly like services must not create service dependencies
 			collide := []struct {
 				id    string
@@ -370,6 +432,15 @@ func init() {
 					addHist(fmt.Sprintf("hist/g%d/ctor/scopes=%v", gi, sc), es, kinds, append([]int{}, sc...))
 				})
 			}
+			// creation variety: the same histories with value-created and type-only services
+			c05creation = 1
+			for ri, es := range reps {
+				kinds := []int{1, 1} // edges realised as fields: value-created and type-only services take no arguments
+				scopeVecs(3, func(sc []int) {
+					addHist(fmt.Sprintf("hist/rep%d/mixed-creation/scopes=%v", ri, sc), es, kinds, append([]int{}, sc...))
+				})
+			}
+			c05creation = 0
 			for ri, es := range reps {
 				for k := 1; k < len(c05kinds); k++ {
 					kinds := []int{k, k}
